@@ -147,6 +147,13 @@ func main() {
 			if err2 != nil {
 				inlineNote = "inlining of new helper functions was abandoned (the rewritten source did not load: " + err2.Error() + "); the tree was analysed as written"
 				inlined = nil
+				if *showSrc {
+					fmt.Fprintln(os.Stderr, inlineNote)
+					for k, v := range overlay {
+						fmt.Printf("==== %s\n%s\n", k, v)
+					}
+					os.Exit(0)
+				}
 			} else {
 				p = p2
 				// further rounds: what the first round wrote out (function
